@@ -1377,7 +1377,11 @@ func validateChainIsPeerExportSafe(
 		return acl.EqualPartitions(entry.GetEnterpriseMeta().PartitionOrEmpty(), found)
 	}
 
-	for _, e := range chainEntries.Routers {
+	// Visit the entries in a fixed order: the first complaint is returned to
+	// the caller of a replicated command and must not depend on map iteration
+	// order.
+	for _, sid := range sortedServiceIDs(chainEntries.Routers) {
+		e := chainEntries.Routers[sid]
 		for _, route := range e.Routes {
 			if route.Destination == nil {
 				continue
@@ -1388,7 +1392,8 @@ func validateChainIsPeerExportSafe(
 		}
 	}
 
-	for _, e := range chainEntries.Splitters {
+	for _, sid := range sortedServiceIDs(chainEntries.Splitters) {
+		e := chainEntries.Splitters[sid]
 		for _, split := range e.Splits {
 			if !emptyOrMatchesEntryPartition(e, split.Partition) {
 				return fmt.Errorf("peer exported service %q contains cross-partition split destination", exportedSvc)
@@ -1396,7 +1401,8 @@ func validateChainIsPeerExportSafe(
 		}
 	}
 
-	for _, e := range chainEntries.Resolvers {
+	for _, sid := range sortedServiceIDs(chainEntries.Resolvers) {
+		e := chainEntries.Resolvers[sid]
 		if e.Redirect != nil {
 			if e.Redirect.Datacenter != "" {
 				return fmt.Errorf("peer exported service %q contains cross-datacenter resolver redirect", exportedSvc)
@@ -1428,6 +1434,17 @@ func validateChainIsPeerExportSafe(
 	}
 
 	return nil
+}
+
+func sortedServiceIDs[V any](m map[structs.ServiceID]V) []structs.ServiceID {
+	ids := make([]structs.ServiceID, 0, len(m))
+	for sid := range m {
+		ids = append(ids, sid)
+	}
+	sort.Slice(ids, func(i, j int) bool {
+		return ids[i].String() < ids[j].String()
+	})
+	return ids
 }
 
 // testCompileDiscoveryChain speculatively compiles a discovery chain with
